@@ -97,6 +97,41 @@ pub fn check_preds<D: Preds>(d: &D, h: &D, md: &UModel, mh: &UModel, name: &str)
     Ok(())
 }
 
+/// The blanket implementations (is_subdigraph, is_superdigraph,
+/// is_spanning_subdigraph, is_balanced, is_oriented, is_symmetric) on a
+/// user-defined representation that enumerates vertices and arcs in its own
+/// order with loose size hints.
+pub fn check_user_defined(md: &UModel, mh: &UModel, salt: usize) -> Verdict {
+    use graaf::{IsBalanced, IsOriented, IsSpanningSubdigraph, IsSubdigraph, IsSuperdigraph, IsSymmetric};
+    let name = "user-defined representation (scrambled enumeration order, loose size hints)";
+    for s in [salt, salt + 1, salt + 4] {
+        // one vertex-order scheme for both operands (is_spanning_subdigraph
+        // compares vertices() as sequences, so a representation has to list
+        // equal vertex sets in one order, as the library's do); the order of
+        // rows and arcs differs between them
+        let d = reprs::Scrambled::new(md, s);
+        let h = reprs::Scrambled::new(mh, s).arc_order(s + 1);
+        let rel = |what: &str, got: bool, want: bool| -> Verdict {
+            ensure!(got == want, "{name}: {what} = {got}, the definition says {want} (vertices of d in the order {:?}, of h {:?})", d.order, h.order);
+            Ok(())
+        };
+        rel("h.is_subdigraph(d)", h.is_subdigraph(&d), mh.is_subdigraph_of(md))?;
+        rel("d.is_subdigraph(h)", d.is_subdigraph(&h), md.is_subdigraph_of(mh))?;
+        rel("d.is_superdigraph(h)", d.is_superdigraph(&h), mh.is_subdigraph_of(md))?;
+        rel("h.is_superdigraph(d)", h.is_superdigraph(&d), md.is_subdigraph_of(mh))?;
+        rel("h.is_spanning_subdigraph(d)", h.is_spanning_subdigraph(&d), mh.is_spanning_subdigraph_of(md))?;
+        rel("d.is_spanning_subdigraph(h)", d.is_spanning_subdigraph(&h), md.is_spanning_subdigraph_of(mh))?;
+        let d2 = reprs::Scrambled::new(md, s).arc_order(s + 4);
+        rel("d.is_subdigraph(d) (two arc orders)", d.is_subdigraph(&d2), true)?;
+        rel("d.is_spanning_subdigraph(d) (two arc orders)", d.is_spanning_subdigraph(&d2), true)?;
+        rel("d.is_superdigraph(d) (two arc orders)", d2.is_superdigraph(&d), true)?;
+        rel("d.is_balanced()", d.is_balanced(), md.is_balanced())?;
+        rel("d.is_oriented()", d.is_oriented(), md.is_oriented())?;
+        rel("d.is_symmetric()", d.is_symmetric(), md.is_symmetric())?;
+    }
+    Ok(())
+}
+
 pub const KINDS: &[&str] = &[
     "tournament",
     "tournament-swap (size-preserving non-tournament)",
@@ -345,7 +380,7 @@ impl Prop for C12 {
     type Case = Case;
     const ID: &'static str = "C12";
     const NUM: u64 = 12;
-    const RULE: &'static str = "digraphs built for near misses (order 1..40 quick / 1..90 thorough): tournaments and size-preserving non-tournaments (one pair doubled, another emptied), semicomplete digraphs and the same minus one pair with surplus arcs elsewhere, complete / complete minus one arc, circulants (regular) and one-arc perturbations, arc-disjoint circuit unions (balanced) and perturbations, symmetric / oriented digraphs and one-arc perturbations, uniform digraphs; each also relabelled onto non-contiguous AdjacencyMap ids; pairs (H, D) with H derived from D by deleting arcs / trailing vertices and optionally adding one foreign arc or vertex; all five representations; CPU count k in 1..=16 (AdjacencyList::is_semicomplete is threaded); enum leg: all pairs of digraphs of order <=2 and all digraphs of order 3 against a derived H. One case in 40 has order 63..70. Half of the near-miss pairs are drawn from the last four vertices. Non-trivial = a perturbed (near-miss) kind, or a positive kind of order >=5, or an (H, D) pair with a foreign arc or vertex; distinct = distinct serialised case.";
+    const RULE: &'static str = "digraphs built for near misses (order 1..40 quick / 1..90 thorough): tournaments and size-preserving non-tournaments (one pair doubled, another emptied), semicomplete digraphs and the same minus one pair with surplus arcs elsewhere, complete / complete minus one arc, circulants (regular) and one-arc perturbations, arc-disjoint circuit unions (balanced) and perturbations, symmetric / oriented digraphs and one-arc perturbations, uniform digraphs; each also relabelled onto non-contiguous AdjacencyMap ids; pairs (H, D) with H derived from D by deleting arcs / trailing vertices and optionally adding one foreign arc or vertex; all five representations; CPU count k in 1..=16 (AdjacencyList::is_semicomplete is threaded); enum leg: all pairs of digraphs of order <=2 and all digraphs of order 3 against a derived H. One case in 40 has order 63..70. Half of the near-miss pairs are drawn from the last four vertices. Up to order 40 the blanket implementations (is_subdigraph, is_superdigraph, is_spanning_subdigraph, is_balanced, is_oriented, is_symmetric) are also run on a user-defined representation that enumerates vertices and arcs in its own order with loose size hints. Non-trivial = a perturbed (near-miss) kind, or a positive kind of order >=5, or an (H, D) pair with a foreign arc or vertex; distinct = distinct serialised case.";
     const ASSUMPTIONS: &'static [&'static str] = &["order-0 digraphs are not exercised (no listed constructor produces one)"];
 
     fn legs(tier: Tier) -> Vec<Leg> {
@@ -529,6 +564,9 @@ impl Prop for C12 {
             }
         });
         res?;
+        if md.order() <= 40 && mh.order() <= 40 {
+            check_user_defined(&md, &mh, md.size() * 3 + mh.size() + c.cpus)?;
+        }
         let perturbed = c.kind.contains("perturbed")
             || c.kind.contains("swap")
             || c.kind.contains("minus")
